@@ -34,7 +34,7 @@ Lemma wrun_nocall j p self owner (inner : H -> out) steps : forall h,
   count_calls steps = 0 ->
   wrun H V vnone j p self owner inner steps h = (h, Ok vnone, mk j p self owner (pre_targets steps), false).
 Proof.
-  induction steps as [|[|t| |] r IH]; intros h C; simpl in *; try discriminate.
+  induction steps as [|[|t| |] r IH]; intros h C; simpl in C |- *; try discriminate C.
   - reflexivity.
   - apply IH, C.
   - rewrite (IH h C). reflexivity.
@@ -48,7 +48,7 @@ Lemma wrun_once j p self owner (inner : H -> out) steps : forall h h1 x l1 w1,
    ++ (if is_ok x && negb (call_is_ret steps) then mk j p self owner (post_targets steps) else []),
    w1).
 Proof.
-  induction steps as [|[|t| |] r IH]; intros h h1 x l1 w1 C I; simpl in *; try discriminate.
+  induction steps as [|[|t| |] r IH]; intros h h1 x l1 w1 C I; simpl in C |- *; try discriminate C.
   - apply (IH _ _ _ _ _ C I).
   - rewrite (IH _ _ _ _ _ C I). reflexivity.
   - rewrite I. assert (C0 : count_calls r = 0) by lia.
